@@ -662,6 +662,38 @@ def gen_special(rng, hid, which):
             sc.advance(rng.choice([500, 2000]))
             sc.deliver(s.recs("SA"), 2, v4=True)          # the records come back: resolved again
         return sc.finish(rng.choice([3000, 12000]))
+    if which == "quick-update":
+        # an SRV / TXT update that does not flush its predecessor: less than a second after the
+        # announcement (RFC 6762 10.2 guard) or without the cache-flush bit - two live records of one
+        # name and type coexist; then, sometimes, the OLDER record is announced again (reset_ttl leaves
+        # it where it is in the Vec).  C03: the event must carry the data received last.
+        s = Svc(rng, rng.choice(INST_LABELS), TY1, rng.choice(HOSTS), 2)
+        s.ttl_ptr = 4500; s.ttl_srv = rng.choice([120, 10]); s.ttl_txt = rng.choice([4500, 120]); s.ttl_a = 120
+        s.addrs = s.addrs[:1]; s.txt = [(b"v", b"1")]
+        p1 = s.port
+        sc.advance(100)
+        sc.deliver(s.recs(), 2, v4=True)
+        gap = rng.choice([0, 0, 200, 700, 999, 1000, 1001, 1500])
+        if gap:
+            sc.advance(gap)
+        flush = rng.random() < 0.6
+        what = rng.choice(["S", "T", "ST"])
+        s.port = p1 + 1; s.txt = [(b"v", b"2")]
+        sc.deliver(s.recs(what, flush=flush), 2, v4=True)
+        if rng.random() < 0.5:
+            # the older record again
+            g2 = rng.choice([0, 300, 1200])
+            if g2:
+                sc.advance(g2)
+            s.port = p1; s.txt = [(b"v", b"1")]
+            sc.deliver(s.recs(what, flush=rng.random() < 0.5), 2, v4=True)
+            if rng.random() < 0.5:
+                sc.advance(rng.choice([300, 1500]))
+                sc.deliver(s.recs("A"), 2, v4=True)          # a refresh that changes nothing
+        if rng.random() < 0.4:
+            sc.advance(rng.choice([500, 2000]))
+            sc.deliver([r_a(s.addr_owner, "192.168.1.%d" % rng.randrange(200, 250), 120)], 2, v4=True)   # a new address: resolved again
+        return sc.finish(rng.choice([2500, 5000]))
     if which == "browse-expiring":
         # browse starts while a cached PTR record of the type is in its last second (finding
         # C04-browse-over-expiring-ptr), or shortly before that (control: must pass).  The PTR gets
